@@ -363,10 +363,19 @@ func corruptDelta(c *certs.FinalityCertificate, table gpbft.PowerEntries, kind i
 	case 2:
 		if len(untouched) > 0 {
 			e := untouched[rng.Intn(len(untouched))]
-			insertSorted(certs.PowerTableDelta{ParticipantID: e.ID, PowerDelta: gbig.Zero()})
+			// "no key" as nil and as a zero-length, non-nil slice (what encoding/json makes of "SigningKey":"")
+			var nokey []byte
+			if rng.Bool() {
+				nokey = []byte{}
+			}
+			insertSorted(certs.PowerTableDelta{ParticipantID: e.ID, PowerDelta: gbig.Zero(), SigningKey: nokey})
 			tag = "zerodelta"
 		} else {
-			insertSorted(certs.PowerTableDelta{ParticipantID: freshID(), PowerDelta: gbig.Zero()})
+			var nokey []byte
+			if rng.Bool() {
+				nokey = []byte{}
+			}
+			insertSorted(certs.PowerTableDelta{ParticipantID: freshID(), PowerDelta: gbig.Zero(), SigningKey: nokey})
 			tag = "zerodelta-new"
 		}
 	case 3:
